@@ -24,6 +24,12 @@ func dumpColl(c collection.Collection) string {
 
 // decode query <raw> | cookie <raw> | body <raw> | hdr <name> <value> <lookup name>
 func execDecode(a []string) string {
+	if a[0] == "json" {
+		return execDecodeJSON(a)
+	}
+	if a[0] == "mp" || a[0] == "mpbad" {
+		return execDecodeMP(a)
+	}
 	if decodeWAF == nil {
 		w, err := coraza.NewWAF(coraza.NewWAFConfig().WithDirectives("SecRuleEngine On\nSecRequestBodyAccess On\n"))
 		if err != nil {
@@ -97,6 +103,14 @@ func init() {
 	engines["decode"] = &engine{Exec: execDecode, Gen: func(c *ctx) {
 		names := []string{"a", "A", "b", "", "a b", "x%41", "k=", "n&m", "é", "\xff", "c+d", "%", "%4", "q#r", "long_name_1"}
 		for i := 0; i < c.n; i++ {
+			if i%4 == 1 {
+				genDecodeJSON(c)
+				continue
+			}
+			if i%8 == 2 {
+				genDecodeMP(c)
+				continue
+			}
 			kind := c.r.Pick("query", "query", "body", "cookie", "hdr")
 			if i%50 == 7 {
 				// over the argument limit (3): six distinct names
